@@ -78,6 +78,8 @@ func (st *state) dispatch(toks []string) (string, string) {
 		return st.apiOp(toks)
 	case "frag":
 		return fragOp(toks), ""
+	case "watch", "feed", "replicate":
+		return st.feedOp(toks), ""
 	case "stress":
 		return stressOp(toks), ""
 	case "ptrace":
